@@ -149,6 +149,23 @@ CHECKS['C08'] = ('DESIGN.md#C08',
     'Structural comparator rel 1e-9; only public (reported) values are '
     'snapshotted.')
 
+CHECKS['C09'] = ('DESIGN.md#C09',
+    'Hypothesis-generated histories per object family (Background2D read '
+    'orders x configurations, aperture attribute re-assignment incl. '
+    'position-shape changes, profile normalize/unnormalize/read orders, '
+    'repeated PSFPhotometry / IterativePSFPhotometry / star-finder / '
+    'Ellipse calls) vs. a fresh object performing only the final request',
+    'Generated-history search: every value read or returned after an '
+    'arbitrary generated prefix of reads, assignments and calls must equal '
+    '(bit-for-bit) what a fresh object built from deep copies of the same '
+    'constructor arguments returns for the same request; no read or call '
+    'may raise because of its prefix; public configuration of photometry '
+    'objects must be unchanged after every call. Held on N histories; not '
+    'a proof.',
+    'Reference = fresh object (decided by other properties). Known finding '
+    'F7 (Ellipse geometry overrides persist) is excluded by signature. '
+    'Ellipse fits are few in the quick tier (cost).')
+
 NOT_APPLICABLE = []
 
 
